@@ -3,7 +3,7 @@ strategy that consumes the key; create_storage maps each strategy to its storage
 maintained only by insert/remove/clear; the Patricia pruning loop of remove stops at final nodes (R-PRUNE);
 the DAWG state signature covers every state flag that lookups read (R-SIGNATURE)."""
 from vlib import fixtures
-from rules import variant, prune, signature
+from rules import variant, prune, signature, sibling
 from vlib.mir import Fn, op_place, rv_operands
 from vlib.run import Broken
 
@@ -16,10 +16,13 @@ OPS = ("::insert", "::contains", "::remove", "::keys", "::keys_with_prefix",
 
 def run(ctx):
     fx = ctx.facts("default")
-    fixtures.run(ctx, ['variant', 'prune', 'signature'])
+    fixtures.run(ctx, ['variant', 'prune', 'signature', 'keylimit'])
     # removal unlinks dead-end chains but stops at nodes that are keys themselves
     prune.run(ctx, fx, FILE, "fsa::zipora_trie::PatriciaNode")
     ctx.floor("R-PRUNE.unlink_loops", 1)
+    # insert and the lookups of the LOUDS back end bound the key length alike
+    sibling.key_length_limits(ctx, fx, "src/fsa/zipora_trie.rs")
+    ctx.floor("R-SIBLING.keylimit.sites", 2)
     # DAWG minimisation: the state signature covers every flag that lookups read
     signature.run(ctx, fx, "src/fsa/dawg.rs", "fsa::dawg::DawgState")
     ctx.floor("R-SIGNATURE.flags", 1)
